@@ -10,6 +10,7 @@ import (
 	"github.com/deckhouse/deckhouse/pkg/log"
 	"k8s.io/apimachinery/pkg/apis/meta/v1/unstructured"
 
+	"github.com/flant/shell-operator/pkg/filter/jq"
 	kemtypes "github.com/flant/shell-operator/pkg/kube_events_manager/types"
 	"github.com/flant/shell-operator/pkg/metric"
 	zz "github.com/flant/shell-operator/pkg/zzverif"
@@ -27,6 +28,11 @@ func VH_C02_monitor_snapshot() {
 	mc := &MonitorConfig{Kind: "Pod", ApiVersion: "v1", KeepFullObjectsInMemory: zz.Bool("keep_full_objects")}
 	mc.Metadata.MonitorId = "mon"
 	mc.WithEventTypes(nil)
+	// with a filter that projects the changing part away every Modified is suppressed,
+	// yet the snapshot has to show the current object
+	if zz.Bool("filter_projects_the_change_away") {
+		mc.JqFilter = "{a: .kind}"
+	}
 	mon := NewMonitor(context.Background(), nil, &metric.VFakeStorage{}, mc, func(ev kemtypes.KubeEvent) {}, log.NewNop())
 	mk := func(ns string) *resourceInformer {
 		return newResourceInformer(ns, "", &resourceInformerConfig{mstor: &metric.VFakeStorage{}, eventCb: mon.eventCb, monitor: mc, logger: log.NewNop()})
@@ -73,9 +79,13 @@ func VH_C02_monitor_snapshot() {
 		for _, s := range snap {
 			if s.Metadata.ResourceId == pool[i].ns+"/Pod/"+pool[i].name {
 				cnt++
-				ref, err := applyFilter("", nil, nil, vhC02Object(pool[i].ns, pool[i].name, state[i]))
+				ref, err := applyFilter(mc.JqFilter, jq.NewFilter(), nil, vhC02Object(pool[i].ns, pool[i].name, state[i]))
 				zz.Assume(err == nil)
 				zz.Assert(s.Metadata.Checksum == ref.Metadata.Checksum, "snapshot_shows_current_state")
+				if s.Object != nil {
+					v, _ := s.Object.Object["v"].(string)
+					zz.Assert(v == state[i], "snapshot_object_is_the_current_object")
+				}
 				zz.Assert((s.Object != nil) == mc.KeepFullObjectsInMemory, "full_object_kept_iff_configured")
 			}
 		}
